@@ -7,6 +7,7 @@ NOTES = {
  "C06-seed2": "not reachable by C06 (its workbooks are never opened lazily); caught by C11 (edit of a later sheet while an earlier commented sheet stays raw: saved-content-equals-eager)",
  "C03-seed2": "the generator as it stood never put white space between tags; caught by the new pretty-printed family `enc-indented`",
  "C05-seed2": "C05 as it stood never moved a style object between workbooks; caught by the new `transfer` space",
+ "C04-seed2": "missed by C04 as it stood (exit 0: every edit hit an existing cell or a column right of all column entries) but caught by C05 (dims space); C04 catches it since the loaded special `column-entries-with-gap` and the edit position 'first column without an entry left of one' were added",
  "C09-seed2": "caught by C09 as it stood (translate clause: a reference leaving the grid followed by another reference) and by C03 (shared-edge family)",
 
  "C11-seed1": "missed by the check as it stood when the seed arrived (exit 0: no operation of the alphabet made a materialised sheet need a NEW numbered dependent part); caught after the edit operation also adds a comment (clause saved-content-equals-eager, the unloaded sheet's comments are replaced)",
